@@ -239,6 +239,204 @@ theorem visit_asreq_iff_partial (exro : Bool) :
       simp only [hl, Bool.or_eq_false_iff] at hro
       exact ih1 p hro.1.2
 
+/-- the executable oracle used in the correspondence run decides `SatReq` -/
+theorem satReqB_iff (exro : Bool) : ∀ (s : RS) (v : V), satReqB exro s v = true ↔ SatReq exro s v := by
+  have key := visit.mutual_induct
+    (motive_1 := fun s v => satReqB exro s v = true ↔ SatReq exro s v)
+    (motive_2 := fun s kvs => satFieldsB exro s kvs = true ↔ SatFields exro s kvs)
+    (motive_3 := fun it xs => satItemsB exro it xs = true ↔ SatItems exro it xs)
+  refine (key ?null ?bool ?int ?half ?str ?arr ?obj ?inil ?icons ?fnil ?fcons).1
+  case null => intro s; simp [satReqB, SatReq]
+  case bool => intro s b; simp [satReqB, SatReq]
+  case int =>
+    intro s n; rw [satReqB, SatReq]
+    cases s.max <;> simp [or_assoc]
+  case half =>
+    intro s n; rw [satReqB, SatReq]
+    cases s.max <;> simp
+  case str => intro s t; simp [satReqB, SatReq]
+  case arr =>
+    intro s xs ih; rw [satReqB, SatReq]
+    cases hi : s.items with
+    | none => simp
+    | some it => simp [ih it]
+  case obj =>
+    intro s kvs ih; rw [satReqB, SatReq]
+    simp only [Bool.and_eq_true, Bool.or_eq_true, beq_iff_eq, ih, List.all_eq_true, List.contains_iff_mem,
+      Bool.not_eq_true']
+    constructor
+    · rintro ⟨⟨⟨h1, h2⟩, h3⟩, h4⟩
+      refine ⟨h1, h2, h3, ?_⟩
+      intro hx k hro hk
+      rcases h4 with h4 | h4
+      · simp [hx] at h4
+      · have hkp : k ∈ keys s.props := by
+          cases hl : lookup k s.props with
+          | none => simp [hl, isRO] at hro
+          | some p => exact mem_keys_of_mem k p _ (lookup_some_mem k _ p hl)
+        rcases h4 k hkp with h5 | h5
+        · simp [hro] at h5
+        · simp [hk] at h5
+    · rintro ⟨h1, h2, h3, h4⟩
+      refine ⟨⟨⟨h1, h2⟩, h3⟩, ?_⟩
+      cases hx : exro with
+      | true => left; rfl
+      | false =>
+        right
+        intro k _
+        cases hro : isRO (lookup k s.props) with
+        | false => left; rfl
+        | true => right; simpa using h4 hx k hro
+  case inil => intro it; simp [satItemsB, SatItems]
+  case icons => intro it v r ih1 ih2; rw [satItemsB, SatItems, Bool.and_eq_true, ih1, ih2]
+  case fnil => intro s; simp [satFieldsB, SatFields]
+  case fcons =>
+    intro s k v r ih1 ih2
+    rw [satFieldsB, SatFields, Bool.and_eq_true, ih2]
+    apply and_congr _ Iff.rfl
+    cases hl : lookup k s.props with
+    | none => simp
+    | some p => exact ih1 p
+
+/-- with read-only validation excluded nothing is in the class `ReadOnlyNull` … -/
+theorem roNull_exro : ∀ (s : RS) (v : V), roNull true s v = false := by
+  have key := visit.mutual_induct
+    (motive_1 := fun s v => roNull true s v = false)
+    (motive_2 := fun s kvs => roNullFields true s kvs = false)
+    (motive_3 := fun it xs => roNullItems true it xs = false)
+  refine (key ?null ?bool ?int ?half ?str ?arr ?obj ?inil ?icons ?fnil ?fcons).1
+  case null => intro s; rfl
+  case bool => intro s b; rfl
+  case int => intro s n; rfl
+  case half => intro s n; rfl
+  case str => intro s t; rfl
+  case arr => intro s xs ih; rw [roNull]; cases s.items with | none => rfl | some it => exact ih it
+  case obj => intro s kvs ih; rw [roNull]; exact ih
+  case inil => intro it; rfl
+  case icons => intro it v r ih1 ih2; rw [roNullItems, ih1, ih2]; rfl
+  case fnil => intro s; rfl
+  case fcons =>
+    intro s k v r ih1 ih2
+    rw [roNullFields, ih2]
+    cases lookup k s.props with
+    | none => rfl
+    | some p => simp [ih1 p]
+
+/-- … so under `ExcludeReadOnlyValidations` the equivalence holds at full strength: a readOnly property may be
+present, may be absent even if required, and everything else is checked as usual -/
+theorem visit_exro_iff (s : RS) (v : V) : visit true s v = true ↔ SatReq true s v :=
+  visit_asreq_iff_partial true s v (roNull_exro s v)
+
+/-- The deviation is real (finding F-C06-2): property `a` is readOnly, nullable; the request body
+`{"a": null}` carries the key, the validator accepts it, the request-side reading does not. -/
+theorem readOnlyNull_witness :
+    let pa := RS.mk (some .string) true true false 0 none [] [] none none
+    let s := RS.mk (some .object) false false false 0 none [(['a'], pa)] [] none none
+    let v := V.obj [(['a'], .null)]
+    roNull false s v = true ∧ visit false s v = true ∧ satReqB false s v = false := by decide
+
+/-- a readOnly property sent with a non-null value is rejected (read-only validation on) -/
+theorem readOnly_present_rejected (s : RS) (kvs : List (Str × V)) (k : Str) (v : V)
+    (hro : isRO (lookup k s.props) = true) (hv : lookup k kvs = some v) (hnn : v.isNull = false) :
+    visit false s (.obj kvs) = false := by
+  rw [visit]
+  have hkp : k ∈ keys s.props := by
+    cases hl : lookup k s.props with
+    | none => simp [hl, isRO] at hro
+    | some p => exact mem_keys_of_mem k p _ (lookup_some_mem k _ p hl)
+  have he : isEmptyLeaf s = false := by
+    cases h : isEmptyLeaf s with
+    | false => rfl
+    | true => have e := emptyLeaf_of s h; rw [e.props] at hkp; simp [keys] at hkp
+  have hl : roLoopOK false s.props kvs = false := by
+    unfold roLoopOK
+    apply Bool.eq_false_iff.mpr
+    intro hall
+    have := (List.all_eq_true.mp hall) k hkp
+    simp [hro, hv, hnn] at this
+  simp [he, hl]
+
+/-- a required readOnly property may be missing from a request: the `required` check is the same as for the
+schema without that name in `required` — with and without the exclusion option -/
+theorem readOnly_required_may_be_absent (s : RS) (kvs : List (Str × V)) :
+    requiredOK s kvs = true ↔ ∀ k ∈ s.required, k ∈ keys kvs ∨ isRO (lookup k s.props) = true :=
+  requiredOK_iff s kvs
+
+example :
+    let pa := RS.mk (some .string) false true false 0 none [] [] none none
+    let s := RS.mk (some .object) false false false 0 none [(['a'], pa)] [['a']] none none
+    visit false s (.obj []) = true ∧ visit true s (.obj []) = true ∧
+    visit false s (.obj [(['a'], .str ['x'])]) = false ∧ visit true s (.obj [(['a'], .str ['x'])]) = true := by decide
+
+/-- **write-only properties are allowed in requests**: clearing every `writeOnly` flag of a schema (at any
+depth) never changes the request-side verdict, for either setting of the exclusion option -/
+theorem writeOnly_irrelevant (exro : Bool) : ∀ (s : RS) (v : V), visit exro s.clearWO v = visit exro s v := by
+  have key := visit.mutual_induct
+    (motive_1 := fun s v => visit exro s.clearWO v = visit exro s v)
+    (motive_2 := fun s kvs => visitFields exro s.clearWO kvs = visitFields exro s kvs)
+    (motive_3 := fun it xs => visitItems exro it.clearWO xs = visitItems exro it xs)
+  -- the shortcut for empty schemas may apply to one side only; then the general path accepts anyway
+  have shortcut : ∀ (s : RS) (v : V) (g g' : Bool), v.isNull = false →
+      visit exro s.clearWO v = (isEmptyLeaf s.clearWO || g') → visit exro s v = (isEmptyLeaf s || g) →
+      (isEmptyLeaf s.clearWO = false → isEmptyLeaf s = false → g' = g) →
+      visit exro s.clearWO v = visit exro s v := by
+    intro s v g g' hv h1 h2 hg
+    cases hc : isEmptyLeaf s.clearWO with
+    | true =>
+      have e := noConstraint_of_emptyLeaf _ hc
+      rw [visit_noConstraint exro _ e v hv, visit_noConstraint exro s (noConstraint_of_clearWO s e) v hv]
+    | false =>
+      cases hs : isEmptyLeaf s with
+      | true => rw [isEmptyLeaf_clearWO_of s hs] at hc; cases hc
+      | false => rw [h1, h2, hc, hs, hg hc hs]
+  refine (key ?null ?bool ?int ?half ?str ?arr ?obj ?inil ?icons ?fnil ?fcons).1
+  case null => intro s; simp [visit, clearWO_nullable]
+  case bool =>
+    intro s b
+    exact shortcut s _ _ _ rfl (by rw [visit]) (by rw [visit]) (fun _ _ => by rw [clearWO_ty])
+  case int =>
+    intro s n
+    exact shortcut s _ _ _ rfl (by rw [visit]) (by rw [visit]) (fun _ _ => by rw [clearWO_ty, clearWO_max])
+  case half =>
+    intro s n
+    exact shortcut s _ _ _ rfl (by rw [visit]) (by rw [visit]) (fun _ _ => by rw [clearWO_ty, clearWO_max])
+  case str =>
+    intro s t
+    exact shortcut s _ _ _ rfl (by rw [visit]) (by rw [visit]) (fun _ _ => by rw [clearWO_ty, clearWO_minLen])
+  case arr =>
+    intro s xs ih
+    refine shortcut s _ _ _ rfl (by rw [visit]) (by rw [visit]) (fun _ _ => ?_)
+    rw [clearWO_ty, clearWO_items]
+    cases s.items with
+    | none => rfl
+    | some it => simp only [clearWOOpt]; rw [ih it]
+  case obj =>
+    intro s kvs ih
+    refine shortcut s _ _ _ rfl (by rw [visit]) (by rw [visit]) (fun _ _ => ?_)
+    rw [clearWO_ty, ih]
+    have h1 : roLoopOK exro s.clearWO.props kvs = roLoopOK exro s.props kvs := by
+      unfold roLoopOK
+      rw [clearWO_props, keys_clearWOProps]
+      apply List.all_congr rfl
+      intro k
+      rw [isRO_clearWO]
+    have h2 : requiredOK s.clearWO kvs = requiredOK s kvs := by
+      unfold requiredOK
+      rw [clearWO_required, clearWO_props]
+      apply List.all_congr rfl
+      intro k
+      rw [isRO_clearWO]
+    rw [h1, h2]
+  case inil => intro it; simp [visitItems]
+  case icons => intro it v r ih1 ih2; rw [visitItems, visitItems, ih1, ih2]
+  case fnil => intro s; simp [visitFields]
+  case fcons =>
+    intro s k v r ih1 ih2
+    rw [visitFields, visitFields, ih2, clearWO_props, lookup_clearWOProps, clearWO_addl]
+    cases lookup k s.props with
+    | none => rfl
+    | some p => simp only [Option.map_some]; rw [ih1 p]
+
 /-! ## (d) decoders -/
 
 /-- **C06(d), urlencoded.** Outside the classes `FormFieldUnparsable` and `FormNullForMissing` (and for
